@@ -147,9 +147,20 @@ size_t put_hex16(char *b, size_t pos, size_t cap, unsigned long long v) {
   return pos;
 }
 
+std::atomic<int> g_crashing{0};
+thread_local int tl_in_handler = 0;
+
 void crash_handler(int sig) {
   static char buf[1 << 14];
   static char path[1024];
+  if (tl_in_handler)
+    _exit(71); // fault inside the handler itself
+  tl_in_handler = 1;
+  if (g_crashing.exchange(1)) {
+    // another thread is already reporting: wait for its _exit
+    for (;;)
+      pause();
+  }
   const char *what = sig == SIGSEGV ? "SIGSEGV" : sig == SIGBUS ? "SIGBUS"
                      : sig == SIGABRT ? "SIGABRT" : sig == SIGFPE ? "SIGFPE" : "signal";
   if (g_replay || !g_in_case) {
@@ -236,7 +247,7 @@ void install_crash_net() {
   struct sigaction sa;
   memset(&sa, 0, sizeof sa);
   sa.sa_handler = crash_handler;
-  sa.sa_flags = SA_ONSTACK | SA_RESETHAND;
+  sa.sa_flags = SA_ONSTACK | SA_NODEFER;
   sigemptyset(&sa.sa_mask);
   sigaction(SIGSEGV, &sa, nullptr);
   sigaction(SIGBUS, &sa, nullptr);
@@ -2125,7 +2136,7 @@ VResult o_agree(const VCase &c) {
 // repetitions per case: part of the case, so a replay repeats as often
 int free_reps() {
   const char *t = getenv("VERIF_TIER");
-  return (t && std::string(t) == "thorough") ? 40 : 12;
+  return (t && std::string(t) == "thorough") ? 20 : 12;
 }
 VCase gen_free_pool_case() {
   VCase c = gen_pool_case(4, 25);
@@ -2145,7 +2156,9 @@ VResult o_free_pool(const VCase &c) {
   VResult r;
   uint64_t ops = 0;
   bool cap = false;
-  const int FREE_REPS = (int)c.i("reps");
+  // sampled schedules: a replay samples 25x more, so that a failure that was
+  // seen once in the search is very likely to be seen again
+  const int FREE_REPS = (int)c.i("reps") * (g_replay ? 25 : 1);
   for (int rep = 0; rep < FREE_REPS && r.ok; ++rep) {
     cmi_verif_jitter_seed() = (uint_least64_t)c.i("jitter") * 1000 + rep;
     PoolSim S(c, ENG_FREE);
@@ -2170,7 +2183,9 @@ VResult o_free_tasks(const VCase &c) {
   CaseScope scope(c);
   VResult r;
   uint64_t ops = 0, handed = 0, contention = 0;
-  const int FREE_REPS = (int)c.i("reps");
+  // sampled schedules: a replay samples 25x more, so that a failure that was
+  // seen once in the search is very likely to be seen again
+  const int FREE_REPS = (int)c.i("reps") * (g_replay ? 25 : 1);
   for (int rep = 0; rep < FREE_REPS && r.ok; ++rep) {
     cmi_verif_jitter_seed() = (uint_least64_t)c.i("jitter") * 1000 + rep;
     TaskSim S(c, ENG_FREE);
@@ -2258,12 +2273,12 @@ int main(int argc, char **argv) {
       {"real_threads_pool", 150, gen_free_pool_case, o_free_pool,
        "SAMPLED schedules: the pool programs on 2-4 real unsynchronised "
        "std::threads with seeded jitter at every atomic operation, 12 "
-       "(thorough: 40) repetitions per case; ownership model kept in atomics.",
+       "(thorough: 20) repetitions per case; ownership model kept in atomics.",
        {}});
   props.push_back(
       {"real_threads_tasks", 150, gen_free_task_case, o_free_tasks,
        "SAMPLED schedules: the task/queue programs on 2-4 real unsynchronised "
-       "std::threads with seeded jitter, 12 (thorough: 40) repetitions per "
+       "std::threads with seeded jitter, 12 (thorough: 20) repetitions per "
        "case.",
        {}});
   for (auto &p : props) {
